@@ -77,6 +77,7 @@ class CompiledFunction:
         default_factory=list
     )  # Names declared with var by a program (exist, undefined, from its start)
     is_arrow: bool = False  # arrow function: `this` is the one of the enclosing code
+    binds_own_name: bool = False  # named function expression whose name is visible in its body
     inferred_name: str = ""  # name of an anonymous function taken from its context
     is_method: bool = False  # method, getter or setter: not a constructor
 
@@ -1343,7 +1344,17 @@ class Compiler:
 
         # For named function expressions, add the function name as a local
         # This allows recursive calls like: var f = function fact(n) { return n <= 1 ? 1 : n * fact(n-1); }
-        if is_expression and name:
+        # (a parameter, a var or a function declaration of that name in the
+        # body is another binding and hides the function's own name)
+        own_declarations: set = set()
+        self._collect_var_decls(body, own_declarations)
+        binds_own_name = bool(
+            is_expression
+            and name
+            and name not in self.locals
+            and name not in own_declarations
+        )
+        if binds_own_name:
             self.locals.append(name)
 
         self.loop_stack = []
@@ -1391,6 +1402,7 @@ class Compiler:
             free_vars=self._free_vars[:],
             cell_vars=self._cell_vars[:],
             source_map=self.source_map,
+            binds_own_name=binds_own_name,
         )
 
         # Pop outer scope if we pushed it
